@@ -121,6 +121,19 @@ func (g *Gen) c13Block(depth int, keymap *string, allowInclude bool, files map[s
 				dummy := "emacs"
 				for j := 0; j < g.Range(1, 4); j++ {
 					nt := Pick(g, c13Notations)
+					if g.P(25) {
+						// a conditional block of its own inside the included file
+						cond := Pick(g, []string{"mode=emacs", "mode=vi", "term=xterm", "myapp", "go"})
+						fl = append(fl, rcLine{K: "if", Cond: cond})
+						fl = append(fl, rcLine{K: "bind", Note: nt.text, Typed: wire.Bytes(nt.typed), Value: Pick(g, []string{"verif-probe-3", "end-of-line"})})
+						if g.P(50) {
+							fl = append(fl, rcLine{K: "else"})
+							nt2 := Pick(g, c13Notations)
+							fl = append(fl, rcLine{K: "bind", Note: nt2.text, Typed: wire.Bytes(nt2.typed), Value: "kill-line"})
+						}
+						fl = append(fl, rcLine{K: "endif"})
+						continue
+					}
 					if g.P(70) {
 						fl = append(fl, rcLine{K: "bind", Note: nt.text, Typed: wire.Bytes(nt.typed), Value: Pick(g, []string{"verif-probe-3", "end-of-line"})})
 					} else {
